@@ -160,7 +160,7 @@ theorem live_iff {U : List Con} {Us : List (List Con)} {s : CSt} (h : CInv R RE 
     simp only [Bool.or_eq_false_iff, bne_eq_false_iff_eq]
     exact ⟨by simpa using hne, this⟩
 
-variable (F : ChildFoot E)
+variable (F : ChildFoot R RE E)
 include F
 
 /-- the loop of `check_satisfiability` over the unchecked children -/
@@ -197,7 +197,7 @@ theorem checkLoop_spec {U : List Con} {Us : List (List Con)} : ∀ (l : List Nat
       obtain ⟨v, hv⟩ := (mem_solverList' _ h.nodup j).mp hjl
       have hj : j < s.w.fes.length := (h.map v j hv).1
       have hspec := childCheckSat_spec H (G := (· = stOfI s.w j)) (U := Us.getD j []) [] (stOfI s.w j) (h.kids.each j hj).mark
-      have hfoot := F.checkSat [] (stOfI s.w j)
+      have hfoot := F.checkSat _ _ [] (stOfI s.w j) (h.kids.each j hj)
       simp only [CM.bind, CM.onChild, runOn_eq]
       have hinv := cinv_query h j hj (childCheckSat E []) (by
         revert hspec; generalize childCheckSat E [] (stOfI s.w j) = res
